@@ -24,10 +24,25 @@
 //!   through a stored component: ||M||_inf * err(child) + 0.5 (the offset is `ot_round`ed per master,
 //!     its deltas are integers, so it is exact up to that one rounding at a master location).
 //!   Stored 2x2 entries are exact in F2Dot14 for the whole alphabet (0, +-0.5, +-1 and products).
-//! With ||M||_inf <= 1 for every storable transform of the alphabet this is at most
+//! With ||M||_inf <= 1 for every storable transform of the base alphabet this is at most
 //! 0.5 * (stored depth + 1) (+0.5), i.e. the pair tolerance never exceeds `depth + 1 (+1 IUP)` units;
 //! how the observed differences compare with the plain "1 unit per nesting level" is reported in the
 //! evidence (`max_pair_diff_by_depth`, `pairs_beyond_depth_units`).
+//!
+//! Extensions of the enumerated space (same oracle, nothing special-cased):
+//! * transform alphabet + 12 (`NEW_TK`): 2x2s whose coefficients outside [-2, 2] are OFF the diagonal
+//!   (2.5 x rot90, shears +-2.5, 1.5/2.5 mix); per-master 2x2s that differ in exactly ONE coefficient
+//!   (xx / xy / yx / yy); storable dyadic scales (+-1.5, 1.25, 1.875 — exact in F2Dot14, ||M||_inf up
+//!   to 1.875 enters the allowance above) whose PRODUCT along a nesting path leaves [-2, 2], through
+//!   exported and through non-export glyphs;
+//! * a third location: a middle master (normalized 0.5) at which only a subset of the glyphs has a
+//!   source (every non-empty subset), two non-export parts in both orders, a second simple glyph.
+//!   "The glyph at a location where it has no source" = linear interpolation of its own sources,
+//!   components resolved at that location (`layer_at`); judged wherever the glyph's closure has a
+//!   source (see `closure_has_source`, `ambiguous_at` for the one excluded constellation).
+//!   In a one-axis font every stored value at a judged location is a convex combination of per-master
+//!   rounded values, so the 0.5 per rounding above carries over; an IUP-optimised tuple adds
+//!   0.5 x its scalar.
 
 use dgen::{Axis, Component, Contour as DContour, Design, Glyph, Layer, Pt as DPt, PtKind};
 use fcx::Opts;
@@ -49,6 +64,21 @@ enum TK {
     Scale25,
     Var2x2,
     VarOff,
+    // --- 2x2s whose coefficients outside F2Dot14 sit OFF the diagonal (must be decomposed)
+    Rot90x25,
+    ShearX25,
+    ShearYNeg25,
+    RotMix25,
+    // --- per-master 2x2s that differ in exactly one coefficient (must be decomposed)
+    VarXX,
+    VarXY,
+    VarYX,
+    VarYY,
+    // --- storable scales whose PRODUCTS along a nesting path may leave F2Dot14 (all dyadic: exact in F2Dot14)
+    Scale15,
+    ScaleNeg15,
+    Scale125,
+    Scale1875,
 }
 
 const ALL_TK: [TK; 8] = [
@@ -64,6 +94,30 @@ const ALL_TK: [TK; 8] = [
 /// reduced alphabet for the widest trees (one representative per mechanism: offset only, exact 2x2
 /// with fractional offset, flip, non-commuting rotation, forced decomposition)
 const R5_TK: [TK; 5] = [TK::Translate, TK::Scale05, TK::FlipX, TK::Rot90, TK::Var2x2];
+/// the extension alphabet: off-diagonal overflow, single-coefficient variation, overflowing products
+const NEW_TK: [TK; 12] = [
+    TK::Rot90x25,
+    TK::ShearX25,
+    TK::ShearYNeg25,
+    TK::RotMix25,
+    TK::VarXX,
+    TK::VarXY,
+    TK::VarYX,
+    TK::VarYY,
+    TK::Scale15,
+    TK::ScaleNeg15,
+    TK::Scale125,
+    TK::Scale1875,
+];
+/// the storable scales whose products may overflow, with two neutral partners
+const PROD_TK: [TK; 6] = [TK::Scale15, TK::ScaleNeg15, TK::Scale125, TK::Scale1875, TK::Scale05, TK::Translate];
+/// alphabet of the three-location spaces
+const M3_TK: [TK; 4] = [TK::Translate, TK::Scale05, TK::FlipX, TK::Var2x2];
+const M3_PAIR_TK: [TK; 2] = [TK::Translate, TK::Scale05];
+
+fn every_tk() -> Vec<TK> {
+    ALL_TK.iter().chain(NEW_TK.iter()).copied().collect()
+}
 
 impl TK {
     fn name(self) -> &'static str {
@@ -76,10 +130,42 @@ impl TK {
             TK::Scale25 => "scale2.5",
             TK::Var2x2 => "var2x2",
             TK::VarOff => "varoffset",
+            TK::Rot90x25 => "rot90x2.5",
+            TK::ShearX25 => "shearx2.5",
+            TK::ShearYNeg25 => "sheary-2.5",
+            TK::RotMix25 => "rotmix2.5",
+            TK::VarXX => "varxx",
+            TK::VarXY => "varxy",
+            TK::VarYX => "varyx",
+            TK::VarYY => "varyy",
+            TK::Scale15 => "scale1.5",
+            TK::ScaleNeg15 => "scale-1.5",
+            TK::Scale125 => "scale1.25",
+            TK::Scale1875 => "scale1.875",
         }
     }
-    /// UFO order: xScale xyScale yxScale yScale xOffset yOffset, i.e. x' = a x + c y + e, y' = b x + d y + f
+    /// UFO order: xScale xyScale yxScale yScale xOffset yOffset, i.e. x' = a x + c y + e, y' = b x + d y + f.
+    /// `m`: 0 and 1 are the two end masters; 2 is a source of the composite's own at the middle
+    /// location: the coefficient-wise mean of the ends plus an offset of its own (16.5, -9), so that
+    /// the middle source is NOT what interpolation of the ends gives.
     fn xform(self, m: usize) -> [f64; 6] {
+        if m == 2 {
+            let (a, b) = (self.xform(0), self.xform(1));
+            let mut x = [0.0; 6];
+            for i in 0..6 {
+                x[i] = (a[i] + b[i]) / 2.0;
+            }
+            x[4] += 16.5;
+            x[5] -= 9.0;
+            return x;
+        }
+        let one = |i: usize, v: f64| {
+            let mut x = [1.0, 0.0, 0.0, 1.0, 0.0, 0.0];
+            if m == 1 {
+                x[i] = v;
+            }
+            x
+        };
         match self {
             TK::Id => [1.0, 0.0, 0.0, 1.0, 0.0, 0.0],
             TK::Translate => [1.0, 0.0, 0.0, 1.0, 30.0, -20.0],
@@ -105,10 +191,45 @@ impl TK {
                     [1.0, 0.0, 0.0, 1.0, 40.5, -15.5]
                 }
             }
+            // 2.5 x rotation by 90 degrees: the diagonal is 0, the large coefficients are xy / yx
+            TK::Rot90x25 => [0.0, 2.5, -2.5, 0.0, 0.0, 15.5],
+            // shears: x' = x + 2.5 y (yx) and y' = y - 2.5 x (xy); the diagonal is 1
+            TK::ShearX25 => [1.0, 0.0, 2.5, 1.0, 0.0, 0.0],
+            TK::ShearYNeg25 => [1.0, -2.5, 0.0, 1.0, 7.0, 0.0],
+            // enlarged and rotated: diagonal 1.5 (inside), off-diagonal 2.5 (outside)
+            TK::RotMix25 => [1.5, 2.5, -2.5, 1.5, 0.0, 0.0],
+            // identity in master 0; exactly one coefficient differs in master 1
+            TK::VarXX => one(0, 1.5),
+            TK::VarXY => one(1, 0.5),
+            TK::VarYX => one(2, 0.5),
+            TK::VarYY => one(3, 1.5),
+            TK::Scale15 => [1.5, 0.0, 0.0, 1.5, 10.5, -4.0],
+            TK::ScaleNeg15 => [-1.5, 0.0, 0.0, 1.5, 0.0, 0.0],
+            TK::Scale125 => [1.25, 0.0, 0.0, 1.25, 0.0, 0.0],
+            TK::Scale1875 => [1.875, 0.0, 0.0, 1.875, 0.0, 0.0],
         }
     }
+    /// can never be stored in a glyf composite whatever the options
     fn forced(self) -> bool {
-        matches!(self, TK::Scale25 | TK::Var2x2)
+        matches!(
+            self,
+            TK::Scale25
+                | TK::Var2x2
+                | TK::Rot90x25
+                | TK::ShearX25
+                | TK::ShearYNeg25
+                | TK::RotMix25
+                | TK::VarXX
+                | TK::VarXY
+                | TK::VarYX
+                | TK::VarYY
+        )
+    }
+    fn offdiag_overflow(self) -> bool {
+        matches!(self, TK::Rot90x25 | TK::ShearX25 | TK::ShearYNeg25 | TK::RotMix25)
+    }
+    fn single_coeff_var(self) -> bool {
+        matches!(self, TK::VarXX | TK::VarXY | TK::VarYX | TK::VarYY)
     }
 }
 
@@ -124,14 +245,129 @@ struct Case {
     mixed: Vec<bool>,
     /// per glyph: exported
     export: Vec<bool>,
+    /// per glyph: has a source of its own at the middle location (empty: the design has the two end
+    /// masters only). A composite `gi > 0` with an empty component list is a second simple glyph.
+    #[serde(default)]
+    mid: Vec<bool>,
+    /// how the middle location is written: 0 = a sparse layer of the default master's UFO,
+    /// 1 = a UFO of its own that contains only the glyphs that have a source there
+    #[serde(default)]
+    mid_kind: u8,
 }
 
 impl Case {
+    fn two(n: usize, comps: Vec<Vec<(usize, TK)>>, mixed: Vec<bool>, export: Vec<bool>) -> Case {
+        Case { n, comps, mixed, export, mid: vec![], mid_kind: 0 }
+    }
+    fn has_mid(&self, gi: usize) -> bool {
+        self.mid.get(gi).copied().unwrap_or(false)
+    }
+    fn three_locations(&self) -> bool {
+        self.mid.iter().any(|b| *b)
+    }
+    /// the 2x2 of a component kind when it is the same in both masters
+    fn fixed2x2(t: TK) -> Option<[f64; 4]> {
+        let (a, b) = (t.xform(0), t.xform(1));
+        (a[..4] == b[..4]).then(|| [a[0], a[1], a[2], a[3]])
+    }
+    /// Is there a nesting path below `gi` (at least two edges, every edge a 2x2 that is the same in both
+    /// masters and inside [-2, 2]) whose 2x2 PRODUCT has a coefficient outside [-2, 2]?
+    /// `want_exported_inner`: false = every inner glyph of the path is a non-export composite (the
+    /// path is composed when non-export glyphs are inlined); true = at least one inner glyph is an
+    /// exported composite (the path is composed only by the flatten option).
+    fn product_overflow_below(&self, gi: usize, want_exported_inner: bool) -> bool {
+        fn mul(p: [f64; 4], c: [f64; 4]) -> [f64; 4] {
+            // UFO order xx xy yx yy: x' = xx x + yx y, y' = xy x + yy y; parent p after child c
+            [
+                p[0] * c[0] + p[2] * c[1],
+                p[1] * c[0] + p[3] * c[1],
+                p[0] * c[2] + p[2] * c[3],
+                p[1] * c[2] + p[3] * c[3],
+            ]
+        }
+        fn walk(c: &Case, g: usize, acc: [f64; 4], edges: usize, seen_exported: bool, want: bool) -> bool {
+            for (b, t) in &c.comps[g] {
+                let Some(m) = Case::fixed2x2(*t) else { continue };
+                if m.iter().any(|v| v.abs() > 2.0) {
+                    continue;
+                }
+                let p = mul(acc, m);
+                if edges + 1 >= 2 && seen_exported == want && p.iter().any(|v| v.abs() > 2.0) {
+                    return true;
+                }
+                if !c.comps[*b].is_empty() && walk(c, *b, p, edges + 1, seen_exported || c.export[*b], want) {
+                    return true;
+                }
+            }
+            false
+        }
+        walk(self, gi, [1.0, 0.0, 0.0, 1.0], 0, false, want_exported_inner)
+    }
+    /// After non-export glyphs are inlined (in depth order), does `g` have a source at the middle? Its
+    /// own, or that of a non-export glyph it uses (directly or through non-export glyphs).
+    fn eff_mid(&self, g: usize) -> bool {
+        self.has_mid(g) || self.comps[g].iter().any(|(b, _)| !self.export[*b] && self.eff_mid(*b))
+    }
+    /// Does `gi` (or a composite below it) have no middle source (after inlining) while an exported
+    /// composite below that glyph has one?
+    fn nested_composite_mid_below(&self, gi: usize) -> bool {
+        fn walk(c: &Case, g: usize) -> bool {
+            c.comps[g].iter().any(|(b, _)| !c.comps[*b].is_empty() && ((c.export[*b] && c.eff_mid(*b)) || walk(c, *b)))
+        }
+        // `gi` itself, or a composite below it that flatten rewrites first and `gi` is then built from
+        fn any(c: &Case, g: usize) -> bool {
+            (!c.eff_mid(g) && walk(c, g)) || c.comps[g].iter().any(|(b, _)| any(c, *b))
+        }
+        self.three_locations() && any(self, gi)
+    }
+    /// `gi` (no middle source of its own) uses a NON-EXPORT glyph b (no middle source either) through a
+    /// 2x2 that varies between the masters, and something below b has a middle source: the compiler
+    /// inlines b at the end masters only (multiplying the 2x2 into b's outline / b's component 2x2s)
+    /// and interpolates the PRODUCTS at the middle, where an exported b gives the product of the
+    /// interpolations; see the finding `nonexport-inline-varying-2x2`.
+    fn nonexport_nested_varying_2x2(&self, gi: usize) -> bool {
+        self.three_locations()
+            && !self.has_mid(gi)
+            && self.comps[gi].iter().any(|(b, t)| {
+                !self.export[*b] && !self.has_mid(*b) && Case::fixed2x2(*t).is_none() && self.closure_has_mid(*b)
+            })
+    }
+    /// Known defect classes of the unchanged compiler that the extended space reaches; a violation
+    /// that has the minimal feature of one of them is keyed by it (and by the configuration).
+    fn finding_class(&self, gi: usize, master: usize, cfg: &Opts, class: &str) -> Option<&'static str> {
+        if !matches!(class, "shape-differs" | "source-differs" | "direction-differs" | "source-direction-differs") {
+            return None;
+        }
+        let flat = cfg.flatten && !cfg.decompose;
+        if flat && self.product_overflow_below(gi, true) {
+            return Some("flatten-nested-scale-overflow");
+        }
+        if flat && master == 2 && self.nested_composite_mid_below(gi) {
+            return Some("flatten-drops-nested-intermediate");
+        }
+        if master == 2 && self.nonexport_nested_varying_2x2(gi) {
+            return Some("nonexport-inline-varying-2x2");
+        }
+        None
+    }
+    /// some glyph reachable from `gi` (itself included) has a source of its own at the middle
+    fn closure_has_mid(&self, gi: usize) -> bool {
+        self.has_mid(gi) || self.comps[gi].iter().any(|(b, _)| self.closure_has_mid(*b))
+    }
+    /// the shape of planted-bug class "several non-export parts, not the last one has the middle source"
+    fn nonexport_parts_mid_not_last(&self, gi: usize) -> bool {
+        let ne: Vec<usize> = self.comps[gi].iter().map(|(b, _)| *b).filter(|b| !self.export[*b]).collect();
+        ne.len() >= 2 && !self.has_mid(gi) && !self.eff_mid(*ne.last().unwrap()) && ne[..ne.len() - 1].iter().any(|b| self.eff_mid(*b))
+    }
     fn depth_of(&self, gi: usize) -> usize {
         self.comps[gi].iter().map(|(b, _)| 1 + self.depth_of(*b)).max().unwrap_or(0)
     }
     fn label(&self) -> String {
         let mut s = String::new();
+        if self.three_locations() {
+            let v: Vec<&str> = (0..self.n).filter(|g| self.has_mid(*g)).map(|g| NAMES[g]).collect();
+            s.push_str(&format!("[middle {}: {}] ", if self.mid_kind == 0 { "layer" } else { "ufo" }, v.join(",")));
+        }
         for gi in 1..self.n {
             if gi > 1 {
                 s.push(' ');
@@ -148,7 +384,7 @@ impl Case {
                 .iter()
                 .map(|(b, t)| format!("{}{}@{}", NAMES[*b], if self.export[*b] { "" } else { "~" }, t.name()))
                 .collect();
-            s.push_str(&v.join(","));
+            s.push_str(&if v.is_empty() { "(simple)".to_string() } else { v.join(",") });
         }
         s
     }
@@ -185,12 +421,17 @@ fn on(x: f64, y: f64, kind: PtKind) -> DPt {
 /// coordinates, and a quadratic contour with some on-curve points exactly half way between their
 /// off-curve neighbours (the compiler may drop those) and one that is not.
 fn leaf_contours(m: usize) -> Vec<DContour> {
-    let poly: [(f64, f64); 6] = if m == 0 {
-        [(50.0, 0.0), (250.5, 0.0), (250.5, 101.0), (151.0, 101.0), (151.0, 300.5), (50.0, 300.5)]
-    } else {
-        [(61.0, 0.0), (281.0, 0.0), (281.0, 110.5), (171.5, 110.5), (171.5, 321.0), (61.0, 330.0)]
+    // m == 2: the glyph's own source at the middle location, far from the mean of the two ends
+    let poly: [(f64, f64); 6] = match m {
+        0 => [(50.0, 0.0), (250.5, 0.0), (250.5, 101.0), (151.0, 101.0), (151.0, 300.5), (50.0, 300.5)],
+        1 => [(61.0, 0.0), (281.0, 0.0), (281.0, 110.5), (171.5, 110.5), (171.5, 321.0), (61.0, 330.0)],
+        _ => [(55.0, 0.0), (270.5, 0.0), (270.5, 140.0), (160.0, 140.0), (160.0, 400.5), (55.0, 410.0)],
     };
-    let (cx, cy, r) = if m == 0 { (400.0, 351.0, 61.0) } else { (421.0, 361.5, 70.5) };
+    let (cx, cy, r) = match m {
+        0 => (400.0, 351.0, 61.0),
+        1 => (421.0, 361.5, 70.5),
+        _ => (410.0, 380.5, 90.0),
+    };
     let q = |x: f64, y: f64, k| on(cx + x, cy + y, k);
     let blob = DContour {
         points: vec![
@@ -209,27 +450,61 @@ fn leaf_contours(m: usize) -> Vec<DContour> {
 
 fn own_contour(gi: usize, m: usize) -> DContour {
     let g = gi as f64 * 10.0;
-    let w = m as f64 * 20.5;
-    dgen::shapes::line_contour(&[(600.0 + g, 0.0), (700.0 + g + w, 0.0), (650.5 + g, 120.0 + 5.0 * m as f64)])
+    // m == 2 (own source at the middle): wider and much taller than the mean of the ends
+    let (w, h) = match m {
+        0 => (0.0, 120.0),
+        1 => (20.5, 125.0),
+        _ => (35.0, 160.5),
+    };
+    dgen::shapes::line_contour(&[(600.0 + g, 0.0), (700.0 + g + w, 0.0), (650.5 + g, h)])
 }
 
 fn advance(gi: usize, m: usize) -> f64 {
     500.0 + 50.0 * gi as f64 + if m == 0 { 0.0 } else if gi % 2 == 0 { 60.5 } else { 20.0 }
 }
 
+/// Advances of the three-location designs: integers with even differences between the end masters,
+/// so that the advance interpolated half way is an integer however the compiler gets there (a
+/// rounded virtual source, or default + 0.5 x rounded delta): advances stay exactly comparable.
+fn advance3(gi: usize, m: usize) -> f64 {
+    let d = if gi % 2 == 0 { 60.0 } else { 20.0 };
+    500.0 + 50.0 * gi as f64
+        + match m {
+            0 => 0.0,
+            1 => d,
+            _ => d / 2.0 + 14.0,
+        }
+}
+
+const MID: f64 = 550.0;
+
 fn build_design(c: &Case) -> Design {
-    let mut d = Design::skeleton(
-        "C12",
-        vec![Axis::new("wght", "Weight", 400.0, 400.0, 700.0)],
-        vec![vec![400.0], vec![700.0]],
-    );
+    let axes = vec![Axis::new("wght", "Weight", 400.0, 400.0, 700.0)];
+    let three = c.three_locations();
+    let mut d = if three && c.mid_kind == 1 {
+        Design::skeleton("C12", axes, vec![vec![400.0], vec![700.0], vec![MID]])
+    } else {
+        let mut d = Design::skeleton("C12", axes, vec![vec![400.0], vec![700.0]]);
+        if three {
+            let i = d.add_layer_master(0, vec![MID]);
+            assert_eq!(i, 2);
+        }
+        d
+    };
     for gi in 0..c.n {
         let mut g = Glyph::new(NAMES[gi], &[0x41 + gi as u32]);
         g.export = c.export[gi];
-        for m in 0..2 {
-            let mut l = Layer { advance: advance(gi, m), ..Default::default() };
+        for m in 0..3 {
+            if m == 2 && !c.has_mid(gi) {
+                continue;
+            }
+            let adv = if three { advance3(gi, m) } else { advance(gi, m) };
+            let mut l = Layer { advance: adv, ..Default::default() };
             if gi == 0 {
                 l.contours = leaf_contours(m);
+            } else if c.comps[gi].is_empty() {
+                // a second simple glyph
+                l.contours.push(own_contour(gi, m));
             } else {
                 if c.mixed[gi] {
                     l.contours.push(own_contour(gi, m));
@@ -299,7 +574,7 @@ fn enum_trees(
         if keep(&comps) {
             for mx in mixed_profiles {
                 for ex in export_profiles {
-                    out.push(Case { n, comps: comps.clone(), mixed: mx.clone(), export: ex.clone() });
+                    out.push(Case::two(n, comps.clone(), mx.clone(), ex.clone()));
                 }
             }
         }
@@ -413,6 +688,170 @@ fn spaces(tier: Tier) -> (Vec<Case>, Vec<Value>) {
                         &[vec![true; 4]],
                         o,
                     )
+                },
+            );
+        }
+    }
+    // ---------------------------------------------------------------- extension alphabet (2 masters)
+    let every = every_tk();
+    let has_new = |c: &[Vec<(usize, TK)>]| c.iter().flatten().any(|(_, t)| NEW_TK.contains(t));
+    let chain = |c: &[Vec<(usize, TK)>]| (1..c.len()).all(|gi| c[gi].iter().all(|(b, _)| *b == gi - 1));
+    add(
+        "ext-n2",
+        "2 glyphs over the 20-transform alphabet (8 + off-diagonal overflow x4 + single-coefficient variation x4 + overflowing-product scales x4), at least one NEW transform: B has 1 component of A under all 4 pure/mixed x export profiles; B has 2 components (ordered) pure + all exported",
+        &mut cases,
+        &|o| {
+            enum_trees(2, &|gi| comp_choices(gi, &every, &[1]), &|c| has_new(c), &mixed_all(2), &bool_vectors(2, &[0]), o);
+            enum_trees(2, &|gi| comp_choices(gi, &every, &[2]), &|c| has_new(c), &[vec![false; 2]], &[vec![true; 2]], o);
+        },
+    );
+    match tier {
+        Tier::Quick => {
+            add(
+                "ext-n3-chain",
+                "3 glyphs C = B@t2, B = A@t1 over the 20-transform alphabet, at least one NEW transform; all pure / all mixed; all exported / B not exported",
+                &mut cases,
+                &|o| {
+                    enum_trees(
+                        3,
+                        &|gi| comp_choices(gi, &every, &[1]),
+                        &|c| has_new(c) && chain(c),
+                        &[vec![false; 3], vec![false, true, true]],
+                        &[vec![true; 3], vec![true, false, true]],
+                        o,
+                    )
+                },
+            );
+        }
+        Tier::Thorough => {
+            add(
+                "ext-n3-single",
+                "3 glyphs, one component per composite (C uses A or B) over the 20-transform alphabet, at least one NEW transform; every pure/mixed combination; every export combination of A, B",
+                &mut cases,
+                &|o| {
+                    enum_trees(3, &|gi| comp_choices(gi, &every, &[1]), &|c| has_new(c), &mixed_all(3), &bool_vectors(3, &[0, 1]), o)
+                },
+            );
+            add(
+                "ext-n4-chain-products",
+                "4 glyphs D = C@t3, C = B@t2, B = A@t1 over {scale1.5, scale-1.5, scale1.25, scale1.875, scale0.5, translate}; pure composites; every export combination of A, B, C",
+                &mut cases,
+                &|o| {
+                    enum_trees(
+                        4,
+                        &|gi| comp_choices(gi, &PROD_TK, &[1]),
+                        &|c| chain(c),
+                        &[vec![false; 4]],
+                        &bool_vectors(4, &[0, 1, 2]),
+                        o,
+                    )
+                },
+            );
+        }
+    }
+    // ---------------------------------------------------------------- three locations
+    // A base tree crossed with every non-empty set of glyphs that have a source at the middle location
+    // and with the ways of writing that location.
+    let with_mid = |base: Vec<Case>, kinds: &[u8], o: &mut Vec<Case>| {
+        for c in base {
+            for mask in 1..(1usize << c.n) {
+                for k in kinds {
+                    let mut x = c.clone();
+                    x.mid = (0..c.n).map(|g| mask >> g & 1 == 1).collect();
+                    x.mid_kind = *k;
+                    o.push(x);
+                }
+            }
+        }
+    };
+    // B may also be a second simple glyph (empty component list)
+    let with_leaf = |gi: usize, alphabet: &[TK], counts: &[usize]| {
+        let mut v = comp_choices(gi, alphabet, counts);
+        if gi == 1 {
+            v.push(vec![]);
+        }
+        v
+    };
+    // C has two components, one of A and one of B, in both orders
+    let both_parts = |c: &[Vec<(usize, TK)>]| {
+        c[2].len() == 2 && c[2][0].0 != c[2][1].0 && c[1].len() <= 1
+    };
+    let kinds: &[u8] = match tier {
+        Tier::Quick => &[0],
+        Tier::Thorough => &[0, 1],
+    };
+    add(
+        "m3-n2",
+        "3 locations (ends + a middle where only a stated non-empty subset of glyphs has a source; the composite's own middle source has an offset of its own): 2 glyphs, B has 1 or 2 components of A over {translate, scale0.5, flipx, var2x2}; B pure/mixed; A exported or not; every non-empty middle subset; middle written as a sparse layer (thorough: also as a UFO of its own)",
+        &mut cases,
+        &|o| {
+            let mut base = vec![];
+            enum_trees(2, &|gi| comp_choices(gi, &M3_TK, &[1, 2]), &|_| true, &mixed_all(2), &bool_vectors(2, &[0]), &mut base);
+            with_mid(base, kinds, o);
+        },
+    );
+    let pair_tk: &[TK] = match tier {
+        Tier::Quick => &M3_PAIR_TK,
+        Tier::Thorough => &[TK::Translate, TK::Scale05, TK::FlipX],
+    };
+    add(
+        "m3-n3-parts",
+        "3 locations: C has two components, one of A and one of B in BOTH orders, transforms over {translate, scale0.5} (thorough: + flipx); B is a second simple glyph or B = A@ one of these; C pure/mixed; every export combination of A, B (both not exported = two non-export parts); every non-empty middle subset of {A, B, C}",
+        &mut cases,
+        &|o| {
+            let mut base = vec![];
+            let ch = |gi: usize| if gi == 1 { with_leaf(gi, pair_tk, &[1]) } else { comp_choices(gi, pair_tk, &[2]) };
+            enum_trees(3, &ch, &both_parts, &[vec![false; 3], vec![false, false, true]], &bool_vectors(3, &[0, 1]), &mut base);
+            with_mid(base, kinds, o);
+        },
+    );
+    match tier {
+        Tier::Quick => {
+            add(
+                "m3-n3-single",
+                "3 locations: 3 glyphs in a chain C = B@t2, B = A@t1 over {translate, scale0.5, flipx, var2x2} (the sibling shape C = A@t2 is two independent m3-n2 composites; thorough has it); all pure / all mixed; every export combination of A, B; every non-empty middle subset; sparse layer",
+                &mut cases,
+                &|o| {
+                    let mut base = vec![];
+                    enum_trees(
+                        3,
+                        &|gi| comp_choices(gi, &M3_TK, &[1]),
+                        &|c| chain(c),
+                        &[vec![false; 3], vec![false, true, true]],
+                        &bool_vectors(3, &[0, 1]),
+                        &mut base,
+                    );
+                    with_mid(base, kinds, o);
+                },
+            );
+        }
+        Tier::Thorough => {
+            add(
+                "m3-n3-single",
+                "3 locations: 3 glyphs, one component per composite (C uses A or B) over {translate, scale0.5, flipx, var2x2, scale1.5}; every pure/mixed combination; every export combination of A, B; every non-empty middle subset; sparse layer and UFO",
+                &mut cases,
+                &|o| {
+                    let mut base = vec![];
+                    let al = [TK::Translate, TK::Scale05, TK::FlipX, TK::Var2x2, TK::Scale15];
+                    enum_trees(3, &|gi| comp_choices(gi, &al, &[1]), &|_| true, &mixed_all(3), &bool_vectors(3, &[0, 1]), &mut base);
+                    with_mid(base, kinds, o);
+                },
+            );
+            add(
+                "m3-n4-chain",
+                "3 locations: 4 glyphs in a chain D = C@t3, C = B@t2, B = A@t1 over {translate, scale0.5}; pure composites; every export combination of A, B, C; every non-empty middle subset of the 4 glyphs; sparse layer and UFO",
+                &mut cases,
+                &|o| {
+                    let mut base = vec![];
+                    enum_trees(
+                        4,
+                        &|gi| comp_choices(gi, &M3_PAIR_TK, &[1]),
+                        &|c| chain(c),
+                        &[vec![false; 4]],
+                        &bool_vectors(4, &[0, 1, 2]),
+                        &mut base,
+                    );
+                    with_mid(base, kinds, o);
                 },
             );
         }
@@ -604,13 +1043,103 @@ fn apply(x: &[f64; 6], p: P) -> P {
     (x[0] * p.0 + x[2] * p.1 + x[4], x[1] * p.0 + x[3] * p.1 + x[5], p.2)
 }
 
+/// The drawing of `g` at the location of master `m`: its own layer there, else the linear
+/// interpolation of its two nearest own layers along the (single) axis — coordinates, component
+/// coefficients and the advance, each separately. That is what "the glyph at a location where it has
+/// no source" means in a variable source; its components are then resolved AT THAT LOCATION.
+fn layer_at<'a>(d: &Design, g: &'a Glyph, m: usize) -> Result<std::borrow::Cow<'a, Layer>, String> {
+    if let Some(l) = g.layers.get(&m) {
+        return Ok(std::borrow::Cow::Borrowed(l));
+    }
+    if d.axes.len() != 1 {
+        return Err("interpolation of a missing layer is implemented for one axis".into());
+    }
+    let pos = |k: usize| d.master_norm(k)[0];
+    let x = pos(m);
+    let mut own: Vec<(f64, &Layer)> = g.layers.iter().map(|(k, l)| (pos(*k), l)).collect();
+    own.sort_by(|a, b| a.0.partial_cmp(&b.0).unwrap());
+    let lo = own.iter().filter(|(p, _)| *p <= x).last();
+    let hi = own.iter().find(|(p, _)| *p >= x);
+    let ((p0, l0), (p1, l1)) = match (lo, hi) {
+        (Some(a), Some(b)) => (*a, *b),
+        _ => return Err(format!("glyph {} has no sources around master {m}", g.name)),
+    };
+    let t = if p1 == p0 { 0.0 } else { (x - p0) / (p1 - p0) };
+    let mix = |a: f64, b: f64| a + (b - a) * t;
+    if l0.contours.len() != l1.contours.len() || l0.components.len() != l1.components.len() {
+        return Err(format!("glyph {} is not interpolable", g.name));
+    }
+    let mut l = Layer { advance: mix(l0.advance, l1.advance), ..Default::default() };
+    for (c0, c1) in l0.contours.iter().zip(&l1.contours) {
+        if c0.points.len() != c1.points.len() {
+            return Err(format!("glyph {} is not interpolable", g.name));
+        }
+        l.contours.push(DContour {
+            points: c0.points.iter().zip(&c1.points).map(|(a, b)| DPt { x: mix(a.x, b.x), y: mix(a.y, b.y), kind: a.kind }).collect(),
+        });
+    }
+    for (c0, c1) in l0.components.iter().zip(&l1.components) {
+        if c0.base != c1.base {
+            return Err(format!("glyph {} is not interpolable", g.name));
+        }
+        let mut x6 = [0.0; 6];
+        for i in 0..6 {
+            x6[i] = mix(c0.xform[i], c1.xform[i]);
+        }
+        l.components.push(Component { base: c0.base.clone(), xform: x6 });
+    }
+    Ok(std::borrow::Cow::Owned(l))
+}
+
+/// Does `name` or any glyph it is built from have a source of its own at master `m`?
+fn closure_has_source(d: &Design, name: &str, m: usize, guard: usize) -> bool {
+    let Some(g) = d.glyph(name) else { return false };
+    if g.layers.contains_key(&m) {
+        return true;
+    }
+    if guard > 8 {
+        return false;
+    }
+    let bases: BTreeSet<&str> = g.layers.values().flat_map(|l| l.components.iter().map(|c| c.base.as_str())).collect();
+    bases.into_iter().any(|b| closure_has_source(d, b, m, guard + 1))
+}
+
+fn bases_of(g: &Glyph) -> BTreeSet<&str> {
+    g.layers.values().flat_map(|l| l.components.iter().map(|c| c.base.as_str())).collect()
+}
+
+/// Does `name` or a glyph below it have a component whose 2x2 differs between its sources?
+fn varying_2x2_in_closure(d: &Design, name: &str, guard: usize) -> bool {
+    let Some(g) = d.glyph(name) else { return false };
+    let mut it = g.layers.values();
+    let Some(first) = it.next() else { return false };
+    let varies = g.layers.values().any(|l| {
+        l.components.len() != first.components.len()
+            || l.components.iter().zip(&first.components).any(|(a, b)| a.xform[..4] != b.xform[..4])
+    });
+    varies || (guard <= 8 && bases_of(g).into_iter().any(|b| varying_2x2_in_closure(d, b, guard + 1)))
+}
+
+/// Is the shape of `name` at master `m` NOT fixed by the source? That is the case for a glyph that
+/// has no source at `m` anywhere in its closure (so it is purely interpolated there) while a 2x2 in
+/// its closure varies: interpolating the resolved outlines (what a variable font does between a
+/// glyph's masters) and composing interpolated components then differ (linear vs bilinear), and
+/// neither reading is wrong. Any glyph built from such a glyph inherits the ambiguity at `m`.
+fn ambiguous_at(d: &Design, name: &str, m: usize, guard: usize) -> bool {
+    let Some(g) = d.glyph(name) else { return false };
+    if !closure_has_source(d, name, m, 0) {
+        return varying_2x2_in_closure(d, name, 0);
+    }
+    guard <= 8 && bases_of(g).into_iter().any(|b| ambiguous_at(d, b, m, guard + 1))
+}
+
 /// (contour in source order, number of negative-determinant transforms on the path)
 fn truth_raw(d: &Design, name: &str, m: usize, guard: usize) -> Result<(Vec<(Vec<P>, u32)>, usize), String> {
     if guard > 8 {
         return Err("component nesting too deep / cyclic".into());
     }
     let g = d.glyph(name).ok_or_else(|| format!("source has no glyph {name}"))?;
-    let l = g.layers.get(&m).ok_or_else(|| format!("glyph {name} has no layer for master {m}"))?;
+    let l = layer_at(d, g, m)?;
     let mut out = vec![];
     for c in &l.contours {
         let mut pts = vec![];
@@ -718,15 +1247,20 @@ impl<'a> FontView<'a> {
         match g.kind {
             InstKind::Empty => Ok(FontGlyph { raw: vec![], depth: 0, stored: Stored::Empty, iup: false }),
             InstKind::Simple { contours } => {
+                // every active tuple that omits points may be off by the compiler's IUP tolerance (0.5),
+                // weighted with its scalar at this location
                 let mut iup = false;
+                let mut iup_err = 0.0;
                 if nondefault {
                     for t in self.vf.glyph_tuples(gid)? {
-                        if t.scalar(coords) != 0.0 && t.points.is_some() {
+                        let sc = t.scalar(coords);
+                        if sc != 0.0 && t.points.is_some() {
                             iup = true;
+                            iup_err += 0.5 * sc.abs();
                         }
                     }
                 }
-                let err = 0.5 + if iup { 0.5 } else { 0.0 };
+                let err = 0.5 + iup_err;
                 Ok(FontGlyph {
                     raw: contours
                         .into_iter()
@@ -853,6 +1387,12 @@ struct Stats {
     max_source_diff_by_depth: BTreeMap<String, f64>,
     skrifa_crosschecks: u64,
     skrifa_max_unrounded_diff: f64,
+    cases_three_locations: u64,
+    glyph_locations_skipped_no_source_in_closure: u64,
+    glyph_locations_skipped_interpolation_ambiguous: u64,
+    glyphs_judged_at_middle: u64,
+    glyphs_judged_at_middle_without_own_source: u64,
+    pairs_compared_at_middle: u64,
 }
 
 fn bump(m: &mut BTreeMap<String, u64>, k: &str) {
@@ -932,6 +1472,12 @@ fn stats_from_value(v: &Value) -> Stats {
         max_source_diff_by_depth: mf("max_source_diff_by_depth"),
         skrifa_crosschecks: u("skrifa_crosschecks"),
         skrifa_max_unrounded_diff: v["skrifa_max_unrounded_diff"].as_f64().unwrap_or(0.0),
+        cases_three_locations: u("cases_three_locations"),
+        glyph_locations_skipped_no_source_in_closure: u("glyph_locations_skipped_no_source_in_closure"),
+        glyph_locations_skipped_interpolation_ambiguous: u("glyph_locations_skipped_interpolation_ambiguous"),
+        glyphs_judged_at_middle: u("glyphs_judged_at_middle"),
+        glyphs_judged_at_middle_without_own_source: u("glyphs_judged_at_middle_without_own_source"),
+        pairs_compared_at_middle: u("pairs_compared_at_middle"),
     }
 }
 
@@ -999,7 +1545,8 @@ fn evaluate(d: &Design, cfgs: &[Opts], skrifa_cfgs: &[usize]) -> EvalOut {
 
     // ---- the reference font against the source, and its resolved glyphs
     struct Ref {
-        per_master: Vec<(Vec<f64>, Resolved, Truth)>,
+        /// (master index, normalized coordinates, resolution in the reference font, source truth)
+        per_master: Vec<(usize, Vec<f64>, Resolved, Truth)>,
     }
     let mut refs: BTreeMap<String, Ref> = BTreeMap::new();
     let mut any_flip = false;
@@ -1021,6 +1568,23 @@ fn evaluate(d: &Design, cfgs: &[Opts], skrifa_cfgs: &[usize]) -> EvalOut {
         };
         let mut per_master = vec![];
         for (m, u) in users.iter().enumerate() {
+            // a location is judged for a glyph when the glyph or anything it is built from has a
+            // source there (elsewhere "the glyph at that location" is not fixed by the source:
+            // interpolating a composite and composing interpolations differ legitimately)
+            if !closure_has_source(d, &g.name, m, 0) {
+                st.glyph_locations_skipped_no_source_in_closure += 1;
+                continue;
+            }
+            if ambiguous_at(d, &g.name, m, 0) {
+                st.glyph_locations_skipped_interpolation_ambiguous += 1;
+                continue;
+            }
+            if m >= 2 {
+                st.glyphs_judged_at_middle += 1;
+                if !g.layers.contains_key(&m) {
+                    st.glyphs_judged_at_middle_without_own_source += 1;
+                }
+            }
             let coords = fv0.vf.normalize(&[(tag.clone(), *u)]);
             let t = match truth(d, &g.name, m) {
                 Ok(t) => t,
@@ -1041,7 +1605,10 @@ fn evaluate(d: &Design, cfgs: &[Opts], skrifa_cfgs: &[usize]) -> EvalOut {
             if r.depth == 3 && m == 0 {
                 st.glyphs_stored_depth3_by_default += 1;
             }
-            per_master.push((coords, r, t));
+            per_master.push((m, coords, r, t));
+        }
+        if per_master.is_empty() {
+            continue;
         }
         // measured: a base of this glyph is absent from the font although the glyph resolves to its outline
         let l0 = &g.layers[&0];
@@ -1054,12 +1621,13 @@ fn evaluate(d: &Design, cfgs: &[Opts], skrifa_cfgs: &[usize]) -> EvalOut {
         let must = (0..l0.components.len()).any(|c| varies(c) || l0.components[c].xform[..4].iter().any(|v| v.abs() > 2.0));
         if must {
             forced = true;
-            if per_master[0].1.stored == Stored::Simple {
+            if per_master[0].2.stored == Stored::Simple {
                 st.glyphs_forced_decomposition_stored_simple_by_default += 1;
             }
         }
         refs.insert(g.name.clone(), Ref { per_master });
     }
+    st.cases_three_locations = (d.masters.len() > 2) as u64;
     st.cases_with_flip = any_flip as u64;
     st.cases_depth3 = (max_depth >= 3) as u64;
     st.cases_nonexport_inlined = nonexport_inlined as u64;
@@ -1109,7 +1677,7 @@ fn evaluate(d: &Design, cfgs: &[Opts], skrifa_cfgs: &[usize]) -> EvalOut {
                 });
                 continue;
             };
-            for (m, (coords, r0, t)) in rf.per_master.iter().enumerate() {
+            for (m, coords, r0, t) in rf.per_master.iter().map(|(m, c, r, t)| (*m, c, r, t)) {
                 let rx_owned;
                 let rx = if ci == 0 {
                     r0
@@ -1142,7 +1710,13 @@ fn evaluate(d: &Design, cfgs: &[Opts], skrifa_cfgs: &[usize]) -> EvalOut {
                 if ci == 0 {
                     src0_ok.insert((g.name.clone(), m), matches!(src, Cmp::Same(_)));
                 }
-                let want_adv = dgen::ot_round(g.layers[&m].advance);
+                let want_adv = match layer_at(d, g, m) {
+                    Ok(l) => dgen::ot_round(l.advance),
+                    Err(e) => {
+                        out.machinery.push(format!("source advance: {e}"));
+                        continue;
+                    }
+                };
                 if (rx.adv_metrics - want_adv).abs() > 1e-6 {
                     out.viol.push(mk(
                         "source-advance-differs",
@@ -1172,6 +1746,9 @@ fn evaluate(d: &Design, cfgs: &[Opts], skrifa_cfgs: &[usize]) -> EvalOut {
                 }
                 // (2) against the empty configuration
                 st.glyph_location_pairs_compared += 1;
+                if m >= 2 {
+                    st.pairs_compared_at_middle += 1;
+                }
                 if rx.iup || r0.iup {
                     st.pairs_with_iup_allowance += 1;
                 }
@@ -1225,7 +1802,7 @@ fn evaluate(d: &Design, cfgs: &[Opts], skrifa_cfgs: &[usize]) -> EvalOut {
             }
             // second opinion on the evaluator
             if skrifa_cfgs.contains(&ci) {
-                for (coords, _, _) in &rf.per_master {
+                for (_, coords, _, _) in &rf.per_master {
                     match otvar::crosscheck_skrifa_detail(bytes, gid, coords) {
                         Ok(cc) => {
                             st.skrifa_crosschecks += 1;
@@ -1464,6 +2041,8 @@ fn main() {
     let cfgs = all_configs();
     let only: Option<usize> = std::env::var("C12_LIMIT").ok().and_then(|s| s.parse().ok());
     let total_cases = only.map(|n| n.min(cases.len())).unwrap_or(cases.len());
+    // development aid: skip the first n cases of the list (the run is then not exhaustive)
+    let from: usize = std::env::var("C12_FROM").ok().and_then(|s| s.parse().ok()).unwrap_or(0);
     let skrifa_every = args.tier.pick(37usize, 211usize);
     // A fixed number of lanes, each a thread of its own working through a fixed subsequence of the case
     // list: with the shimmed getrandom the hash keys every compile sees are then a function of
@@ -1487,6 +2066,9 @@ fn main() {
         let mut nontrivial = 0u64;
         let mut seen = BTreeSet::new();
         for idx in (lane..total_cases).step_by(LANES) {
+            if idx < from {
+                continue;
+            }
             let _permit = permits.acquire();
             if t0.elapsed().as_secs_f64() > cap_s {
                 skipped.fetch_add(1, std::sync::atomic::Ordering::Relaxed);
@@ -1516,9 +2098,10 @@ fn main() {
                         // one mechanism whatever the configuration and transform: key on the glyph kind only
                         format!("{}:{}", x.class, case.kind_label(gi))
                     }
-                    (_, Some(gi)) => {
-                        format!("{}:{cname}:{}:{}", x.class, case.transform_label(gi), case.kind_label(gi))
-                    }
+                    (_, Some(gi)) => match case.finding_class(gi, x.master, &cfgs[x.cfg], x.class) {
+                        Some(f) => format!("{f}:{cname}"),
+                        None => format!("{}:{cname}:{}:{}", x.class, case.transform_label(gi), case.kind_label(gi)),
+                    },
                     _ => format!("{}:{cname}", x.class),
                 };
                 if seen.insert(key.clone()) {
@@ -1578,11 +2161,35 @@ fn main() {
         if (1..c.n).any(|gi| c.comps[gi].iter().any(|(_, x)| x.forced())) {
             structurally_forced += 1;
         }
-        for t in ALL_TK {
+        for t in every_tk() {
             if (1..c.n).any(|gi| c.comps[gi].iter().any(|(_, x)| *x == t)) {
                 *by_tk.entry(t.name().to_string()).or_default() += 1;
             }
         }
+    }
+    // the new dimensions, counted structurally from the case list
+    let mut dims: BTreeMap<&str, u64> = BTreeMap::new();
+    for c in &cases[..total_cases] {
+        let any_edge = |f: &dyn Fn(TK) -> bool| (1..c.n).any(|gi| c.comps[gi].iter().any(|(_, x)| f(*x)));
+        let any_glyph = |f: &dyn Fn(usize) -> bool| (1..c.n).any(|gi| c.export[gi] && f(gi));
+        let mut hit = |k: &'static str, b: bool| *dims.entry(k).or_default() += b as u64;
+        hit("offdiagonal_overflow_2x2", any_edge(&|t| t.offdiag_overflow()));
+        hit("single_coefficient_variation", any_edge(&|t| t.single_coeff_var()));
+        hit("single_coefficient_variation_yy_only", any_edge(&|t| t == TK::VarYY));
+        hit("product_overflow_through_nonexport_glyph", any_glyph(&|g| c.product_overflow_below(g, false)));
+        hit("product_overflow_through_exported_glyph", any_glyph(&|g| c.product_overflow_below(g, true)));
+        hit("three_locations", c.three_locations());
+        hit("three_locations_middle_as_layer", c.three_locations() && c.mid_kind == 0);
+        hit("three_locations_middle_as_ufo", c.three_locations() && c.mid_kind == 1);
+        hit("middle_source_only_below_an_exported_glyph", any_glyph(&|g| !c.has_mid(g) && c.closure_has_mid(g)));
+        hit("two_nonexport_parts_middle_source_not_in_last", any_glyph(&|g| c.nonexport_parts_mid_not_last(g)));
+        hit("two_nonexport_parts_middle_source_in_last_only", any_glyph(&|g| {
+            let ne: Vec<usize> = c.comps[g].iter().map(|(b, _)| *b).filter(|b| !c.export[*b]).collect();
+            ne.len() >= 2 && !c.has_mid(g) && c.has_mid(*ne.last().unwrap()) && !ne[..ne.len() - 1].iter().any(|b| c.has_mid(*b))
+        }));
+        hit("exported_nested_composite_with_middle_source", any_glyph(&|g| c.nested_composite_mid_below(g)));
+        hit("nonexport_nested_varying_2x2", any_glyph(&|g| c.nonexport_nested_varying_2x2(g)));
+        hit("second_simple_glyph", (1..c.n).any(|gi| c.comps[gi].is_empty()));
     }
     rep.set("evaluations", total.compiles);
     rep.set("cases", total.cases);
@@ -1595,16 +2202,24 @@ fn main() {
     rep.set("counts", serde_json::to_value(&total).unwrap());
     rep.set("cases_using_transform", serde_json::to_value(&by_tk).unwrap());
     rep.set("cases_with_unstorable_transform_in_source", structurally_forced);
+    rep.set("cases_by_new_dimension", serde_json::to_value(&dims).unwrap());
     rep.set("spaces", notes);
     rep.set("samples", samples);
     let skipped = skipped.load(std::sync::atomic::Ordering::Relaxed);
-    rep.set("exhaustive", only.is_none() && skipped == 0);
+    rep.set("exhaustive", only.is_none() && from == 0 && skipped == 0);
+    if from > 0 {
+        rep.set("cap", format!("C12_FROM={from}: the first {from} of {} cases not run", cases.len()));
+    }
     if skipped > 0 {
         rep.set("cap", format!("wall-time cap of {cap_s} s hit: {skipped} of {total_cases} cases not run"));
     }
     if only.is_some() {
         rep.set("cap", format!("C12_LIMIT={total_cases} of {} cases", cases.len()));
     }
+    rep.assume("three-location sources: masters at wght 400 (default), 700 and a middle location 550 (normalized 0.5) at which only a stated non-empty subset of glyphs has a source, written as a sparse layer of the default UFO (thorough: also as a UFO of its own holding only those glyphs). A glyph at a location where it has no source is the linear interpolation of its own sources (outline points, component coefficients, advance), its components resolved AT that location. A glyph is judged at the middle only when it or something below it has a source there, and not when a glyph below it is purely interpolated there while a 2x2 in that glyph's closure varies (interpolating resolved outlines vs composing interpolated components: linear vs bilinear, both legitimate; counted in glyph_locations_skipped_interpolation_ambiguous). Advances of these sources are integers with even differences so the interpolated advance is an integer and advances stay exactly comparable");
+    rep.assume("one-axis fonts: the outline of a stored simple glyph (and a stored component offset) at any judged location is a convex combination of per-master ROUNDED values (piecewise-linear model, regions end at the neighbouring master), hence within 0.5 of the source; each active gvar tuple that omits points adds 0.5 x its scalar (IUP tolerance)");
+    rep.assume("extension alphabet: all numbers dyadic, so a 2x2 kept in a composite (0.5, 1, 1.25, 1.5, 1.875 and signs) is exact in F2Dot14 and no quantisation term is needed; through a stored component the allowance is ||M||_inf x allowance(child) + 0.5 with ||M||_inf up to 1.875");
+    rep.assume("violations that have the minimal feature of a known defect class of the unchanged compiler are keyed by it: flatten-nested-scale-overflow (flatten composes 2x2s of nested EXPORTED composites without re-checking [-2, 2]), flatten-drops-nested-intermediate (flatten of a glyph without a middle source over an exported composite that has one), nonexport-inline-varying-2x2 (a non-export glyph used through a per-master varying 2x2, at a location only a deeper glyph has: products are interpolated instead of interpolations multiplied)");
     rep.assume("sources: UFO/designspace, 1 axis, 2 full masters, every glyph present in both; outlines of lines and quadratics only (cubics differ legitimately through cu2qu of transformed vs untransformed curves); no anchors, no USE_MY_METRICS (fontc sets it on static fonts only)");
     rep.assume("transforms that stay stored as components are exact in F2Dot14 (entries 0, +-0.5, +-1 and their products); scale 2.5 and the per-master varying 2x2 can never be stored");
     rep.assume("direction: contours are compared direction-SENSITIVELY after reversing those reached through an odd number of stored flipped components (a rasteriser mirrors them without re-winding; the compiler re-winds when it decomposes a flip), so all 16 configurations must agree and must equal the source direction reversed once plus once per source flip; a mismatch in direction alone is keyed direction-differs");
